@@ -17,3 +17,107 @@ Theorem C12_keepalive_tick_sleeps : forall fresh now ps d, 0 <= now < 2 ^ 62 -> 
   Forall (fun nt => now < nt) ps /\ 0 <= d /\ d * 1000 <= base_next fresh now - now /\
   Forall (fun nt => now + d * 1000 <= nt) ps /\ (d = 0 -> exists nt, In nt ps /\ nt - now < 1000).
 Proof. exact rearm_idle. Qed.
+
+(** ------------------------------------------------------------------------------------------------------------------------------
+    The reference graph of a component (coq/Agent/OwnModel.v, tied to agent/component.c, discovery.c, conncheck.c by harness/own_h.c):
+    WF s = every pointer stored in any container or object (selected pair, pair.local/remote/sockptr, candidate.sockptr, TURN socket's
+    base socket, incoming checks, socket sources, discovery and refresh items, check list, triggered queue) refers to a live object.
+    "fault" = 1 after a use of a freed object, 2 after a failed g_assert.  The theorems hold for ALL states (any number of objects). *)
+From Nice Require Import Agent.OwnModel Agent.OwnProofs.
+
+(** conn_check_prune_socket, for every well-formed state and every socket: no use after free, no assertion (given that a nominated pair
+    implies a selected pair of non-zero priority), WF is kept, only pairs / check list / triggered queue / component state change, no pair
+    is invented, a pair is unlinked from the check list only by being freed, pairs of other components and pairs not on the list are
+    untouched, and afterwards NO pair of this component on the check list uses the socket (neither through its local or remote
+    candidate's sockptr nor through its own) *)
+Theorem C12_prune_socket_sound : forall s sk, WF s -> fault s = 0 -> cstate_ok s -> (no_nominated s \/ sel_prio s > 0) ->
+  let s' := conn_check_prune_socket s sk in
+  WF s' /\ fault s' = 0 /\ cstate_ok s' /\ frameP s s' /\
+  (forall x, In x (pairs s') -> In x (pairs s)) /\
+  (forall i, In i (clist s') -> In i (clist s)) /\
+  (forall x, In x (pairs s') -> In (p_id x) (clist s) -> In (p_id x) (clist s')) /\
+  (forall x, In x (pairs s) -> ~ In (p_id x) (clist s) -> In x (pairs s')) /\
+  (forall x, In x (pairs s) -> p_comp x <> cid s -> In x (pairs s') /\ (In (p_id x) (clist s) -> In (p_id x) (clist s'))) /\
+  (forall pr, In pr (pairs s') -> In (p_id pr) (clist s') -> p_comp pr = cid s' -> pair_touches s' pr sk = Some false).
+Proof. exact ccps_spec. Qed.
+Print Assumptions C12_prune_socket_sound.
+
+(** nice_component_detach_socket (which closes and frees the socket) is sound exactly when nothing but the candidate about to be freed still
+    points to the socket: then every other reference in the state is still live, the incoming checks received on it and its source are gone *)
+Theorem C12_detach_socket_sound : forall s k c, WF s -> fault s = 0 -> In k (sources s) ->
+  (forall x, In x (socks s) -> sk_base x <> Some k) -> (forall x, In x (cands s) -> c_sock x = Some k -> c_id x = c) ->
+  (forall p, In p (pairs s) -> p_sock p <> k) -> (forall r, In r (refrs s) -> r_sock r <> k) -> (forall d, In d (discs s) -> d_sock d <> k) ->
+  WFx (Some c) (detach_socket s k) /\ fault (detach_socket s k) = 0 /\
+  detach_socket s k = set_socks (set_sources (set_ichecks s (filter (fun i => negb (i_sock i =? k)) (ichecks s))) (remove1 k (sources s))) (filter (fun x => negb (sk_id x =? k)) (socks s)).
+Proof. exact detach_spec. Qed.
+Print Assumptions C12_detach_socket_sound.
+
+(** freeing a candidate and unlinking it from its list restores full well-formedness once no pair, refresh, selected pair or turn_candidate
+    refers to it *)
+Theorem C12_free_candidate_sound : forall s c loc, WFx (Some c) s -> fault s = 0 -> live_cand s c ->
+  (loc = true -> ~ In c (rcands s)) -> (loc = false -> ~ In c (lcands s)) ->
+  (forall p, In p (pairs s) -> p_local p <> c /\ p_remote p <> c) -> (forall r, In r (refrs s) -> r_cand r <> c) ->
+  sel_l s <> Some c -> sel_r s <> Some c -> turn_cand s <> Some c ->
+  WF (drop_cand s c loc) /\ fault (drop_cand s c loc) = 0 /\
+  drop_cand s c loc = (if loc then set_lcands (set_cands s (filter (fun x => negb (c_id x =? c)) (cands s))) (remove1 c (lcands s))
+                       else set_rcands (set_cands s (filter (fun x => negb (c_id x =? c)) (cands s))) (remove1 c (rcands s))).
+Proof. exact drop_spec. Qed.
+Print Assumptions C12_free_candidate_sound.
+
+(** refresh_prune_candidate: WF is kept, no fault, only the refresh containers change, every refresh of the candidate that was on
+    agent->refresh_list is gone, every other refresh stays (and stays listed) *)
+Theorem C12_refresh_prune_candidate_sound : forall s c, WF s -> fault s = 0 ->
+  WF (refresh_prune_candidate s c) /\ fault (refresh_prune_candidate s c) = 0 /\ frameR s (refresh_prune_candidate s c) /\
+  (forall x, In x (refrs (refresh_prune_candidate s c)) -> In x (refrs s) /\ (In (r_id x) (rlist s) -> r_cand x <> c)) /\
+  (forall x, In x (refrs s) -> r_cand x <> c -> In x (refrs (refresh_prune_candidate s c))) /\
+  (forall i, In i (rlist s) -> live_refr (refresh_prune_candidate s c) i -> In i (rlist (refresh_prune_candidate s c))).
+Proof. exact refresh_prune_candidate_spec. Qed.
+Print Assumptions C12_refresh_prune_candidate_sound.
+
+(** once no pair of the check list touches a socket, no pair at all refers to a candidate of this component that sits on that socket: the
+    candidate can be freed (the argument nice_component_remove_socket relies on between conn_check_prune_socket and nice_candidate_free) *)
+Theorem C12_pruned_candidate_unreferenced : forall s ns sk cd, WF s -> Pre s ns -> touches_none s sk -> In cd (cands s) -> c_sock cd = Some sk ->
+  In (c_id cd) (lcands s) \/ In (c_id cd) (rcands s) -> forall p, In p (pairs s) -> p_local p <> c_id cd /\ p_remote p <> c_id cd.
+Proof. exact untouched_cand. Qed.
+Print Assumptions C12_pruned_candidate_unreferenced.
+
+(** tear-down (conn_check_prune_stream, discovery_prune_stream, nice_component_close), from ANY state, well-formed or not: every container of
+    the component is empty afterwards and no selected pair / turn candidate is left *)
+Theorem C12_teardown_empties : forall s, let s' := teardown s in
+  lcands s' = [] /\ rcands s' = [] /\ sources s' = [] /\ ichecks s' = [] /\ clist s' = [] /\ discs s' = [] /\
+  sel_l s' = None /\ sel_r s' = None /\ turn_cand s' = None.
+Proof. exact teardown_empties. Qed.
+Print Assumptions C12_teardown_empties.
+
+(** nice_component_remove_socket, from ANY state: no incoming check received on the removed socket is left *)
+Theorem C12_remove_socket_drops_incoming_checks : forall s ns i, In i (ichecks (remove_socket s ns)) -> i_sock i <> ns.
+Proof. exact remove_socket_ichecks. Qed.
+Print Assumptions C12_remove_socket_drops_incoming_checks.
+
+(** nice_component_remove_socket is NOT sound for every well-formed state: four states (all with a TURN socket layered on the socket that
+    goes) on which the faithful model, and the real function under ASan (harness/own_h.c), misbehave *)
+Theorem C12_remove_socket_shared_turn_socket_refuted : fault w1 = 0 /\ fault (remove_socket w1 0) = 1.
+Proof. exact remove_socket_shared_turn_socket_refuted. Qed.
+Print Assumptions C12_remove_socket_shared_turn_socket_refuted.
+Theorem C12_remove_socket_prflx_on_turn_socket_refuted :
+  let s' := remove_socket w2 0 in
+  fault s' = 0 /\ exists c, In c (cands s') /\ In (c_id c) (rcands s') /\ c_sock c = Some 1 /\ ~ live_sock s' 1.
+Proof. exact remove_socket_prflx_on_turn_socket_refuted. Qed.
+Print Assumptions C12_remove_socket_prflx_on_turn_socket_refuted.
+Theorem C12_remove_socket_turn_candidate_refuted :
+  let s' := remove_socket w3 0 in
+  fault s' = 0 /\ turn_cand s' = Some 9 /\ sel_l s' = Some 9 /\ In (mk_cand 9 (Some 2) true) (cands s') /\ In (mk_sock 2 (Some 0)) (socks s') /\ In 2 (sources s') /\ ~ live_sock s' 0.
+Proof. exact remove_socket_turn_candidate_refuted. Qed.
+Print Assumptions C12_remove_socket_turn_candidate_refuted.
+Theorem C12_remove_socket_assert_refuted : fault w4 = 0 /\ fault (remove_socket w4 0) = 2.
+Proof. exact remove_socket_assert_refuted. Qed.
+Print Assumptions C12_remove_socket_assert_refuted.
+
+(** non-vacuity: a concrete state (two plain sockets, a TURN socket with its relayed candidate on socket 0, a peer-reflexive remote learnt on
+    socket 0, four pairs, triggered queue, incoming checks, discoveries, a refresh, the selected pair on socket 0, READY): socket 0 goes *)
+Example C12_remove_socket_example :
+  let s' := remove_socket ex_state 0 in
+  fault s' = 0 /\ map sk_id (socks s') = [1] /\ map c_id (cands s') = [11; 20] /\ lcands s' = [11] /\ rcands s' = [20] /\ sources s' = [1] /\
+  clist s' = [31] /\ map p_id (pairs s') = [31] /\ trig s' = [] /\ map i_id (ichecks s') = [41] /\ map d_id (discs s') = [52] /\ refrs s' = [] /\ rlist s' = [] /\
+  sel_l s' = None /\ sel_r s' = None /\ cstate s' = 5 /\ verdict s' = 0.
+Proof. exact remove_socket_example. Qed.
